@@ -307,6 +307,25 @@ theorem C18_places_roundtrip (b : Nat) (hb : Base b) (i : Int) (h : InRange b i)
   simp only [hne2, Bool.false_eq_true, ↓reduceIte, hlen2, hz]
   exact hrt
 
+/-- **C18 (base-to-base keeps the number)**: converting a legal text of base `bi` directly to base `bo` gives a text that
+    decodes (in `bo`) to the same number the original decodes to (in `bi`), whenever that number lies in the range of
+    `bo` — always, when going to a wider base. -/
+theorem C18_base2base_value (bi bo : Nat) (hbi : Base bi) (hbo : Base bo) (s : List Char) (h1 : 1 ≤ s.length)
+    (h10 : s.length ≤ 10) (hleg : ∀ c ∈ s, digitVal? bi c ≠ none)
+    (hfit : ∀ i : Int, base2dec (.str s) bi = .num (i : Rat) → InRange bo i) :
+    base2dec (base2base (.str s) none bi bo) bo = base2dec (.str s) bi := by
+  obtain ⟨i, _, he⟩ := C18_decode_in_range bi hbi s h1 h10 hleg
+  rw [C18_compose (.str s) none bi bo (by simp), he]
+  exact C18_roundtrip bo hbo i (hfit i he)
+
+/-- the range of a narrower base lies inside the range of a wider one, so BIN2OCT, BIN2HEX and OCT2HEX always fit -/
+theorem InRange_widen (i : Int) : (InRange 2 i → InRange 8 i) ∧ (InRange 8 i → InRange 16 i) := by
+  have := mask_ranges
+  unfold InRange
+  obtain ⟨h2, h8, h16⟩ := this
+  rw [h2, h8, h16]
+  constructor <;> intro h <;> omega
+
 -- non-vacuity: concrete in-range instances of the hypotheses, and the boundary values
 example : InRange 2 (-512) ∧ InRange 2 511 ∧ ¬ InRange 2 512 ∧ Base 2 := by
   refine ⟨?_, ?_, ?_, Or.inl rfl⟩ <;> (unfold InRange; decide)
@@ -316,5 +335,6 @@ example : base2dec (.str "0b11".toList) 2 = .err .num := by decide +kernel
 example : (∀ c ∈ "1fF".toList, digitVal? 16 c ≠ none) ∧ 1 ≤ "1fF".toList.length := by decide
 example : base2dec (dec2base (.num ((5 : Int) : Rat)) (some (.num ((8 : Int) : Rat))) 2) 2 = .num 5 := by
   decide +kernel
+example : base2base (.str "1111111101".toList) none 2 16 = .str "FFFFFFFFFD".toList := by decide +kernel
 
 end Pycel.Radix
